@@ -470,7 +470,6 @@ def getattr_(R, E, base, attr, node):
         if attr in base.fields:
             return base.fields[attr]
         if attr == "fitted_state_" and base.tag == "estimator" and base.fields.get("$fitted") and "$state" in base.fields:
-            from .values import Opaque
             return Opaque(base.fields["$state"], "fitted-state")
         if attr == "__class__":
             return base.cls if isinstance(base.cls, RepoClass) else ClassOf(base)
@@ -479,7 +478,6 @@ def getattr_(R, E, base, attr, node):
                 d = {k: v for k, v in base.fields.items() if not k.startswith("$")}
                 if base.fields.get("$fitted") and "$state" in base.fields:
                     # the fitted state of an opaque estimator is ONE ghost fitted attribute (what its real coef_, tree_, ... stand for)
-                    from .values import Opaque
                     d["fitted_state_"] = Opaque(base.fields["$state"], "fitted-state")
                 return d
             return base.fields
